@@ -26,7 +26,7 @@ BOUNDS = {'quick': 'RandomFunction input_dim 1-3 x output_dim 1-2 x num_terms 1-
 OUTSIDE = ['determinant=0 (eigenvalues: LAPACK) and determinant=1 beyond the stubbed real 2x2/3x3 families', 'OrthogonalMatrices/UnitaryMatrices (scipy absent)',
            'complex array samplers beyond 2-vectors and 2x2 (the Frobenius norm of complex object arrays is stubbed: numpy would take its real-norm path)',
            'argument (angle) of ComplexSector beyond the polar form', 'retry-loop counts', 'IEEE rounding']
-DEADLINE = {'quick': 170, 'thorough': 1500}
+DEADLINE = {'quick': 600, 'thorough': 1500}
 FUNCS = ['sampling.RealInterval.__init__/gen_sample', 'sampling.IntegerRange', 'sampling.ComplexRectangle', 'sampling.ComplexSector', 'sampling.DiscreteSet',
          'sampling.SpecificFunctions', 'sampling.RandomFunction.gen_sample/random_function', 'matrixsampling.ArraySamplingSet.generate_sample/normalize',
          'matrixsampling.GeneralMatrices.apply_symmetry', 'matrixsampling.SquareMatrices.apply_symmetry/normalize', 'matrixsampling.IdentityMatrixMultiples.generate_sample',
